@@ -389,3 +389,151 @@ Proof.
         -- exact (Hfr (i, o') (or_intror Hp) H).
       * exact (Hfr (i', o') (or_intror Hp)).
 Qed.
+
+(* =================================================================== 3. tables, stored pairs, canonical fan-out *)
+Lemma nodup_app {A} (a b : list A) :
+  NoDup a -> NoDup b -> (forall x, In x a -> ~ In x b) -> NoDup (a ++ b).
+Proof.
+  induction a as [|x r IH]; intros Ha Hb Hd; [exact Hb|]. cbn. inversion Ha; subst. constructor.
+  - rewrite in_app_iff. intros [H|H]; [contradiction|]. exact (Hd x (or_introl eq_refl) H).
+  - apply IH; auto. intros y Hy; apply Hd; right; exact Hy.
+Qed.
+
+Lemma filter_rev' {A} (f : A -> bool) l : filter f (rev l) = rev (filter f l).
+Proof.
+  induction l as [|x r IH]; [reflexivity|]. cbn [rev filter]. rewrite filter_app, IH. cbn [filter].
+  destruct (f x); cbn [rev]; [reflexivity | rewrite app_nil_r; reflexivity].
+Qed.
+Lemma outs_of_rev P i : outs_of (rev P) i = rev (outs_of P i).
+Proof. unfold outs_of. rewrite filter_rev', map_rev. reflexivity. Qed.
+Lemma ins_of_rev P o : ins_of (rev P) o = rev (ins_of P o).
+Proof. unfold ins_of. rewrite filter_rev', map_rev. reflexivity. Qed.
+
+Lemma in_pairs E p : In p (pairs E) <-> exists l, In (fst p, l) E /\ In (snd p) l.
+Proof.
+  unfold pairs. rewrite in_flat_map. split.
+  - intros [[k l] [He Hp]]. cbn [fst snd] in Hp. apply in_map_iff in Hp. destruct Hp as [o [<- Ho]].
+    exists l. cbn. auto.
+  - intros [l [He Ho]]. exists (fst p, l). split; [exact He|]. cbn [fst snd]. apply in_map_iff.
+    exists (snd p). split; [destruct p; reflexivity | exact Ho].
+Qed.
+
+Lemma assoc_In E k l : NoDup (keys E) -> In (k, l) E -> assoc cref_eqb k E = Some l.
+Proof.
+  unfold keys. induction E as [|[k' l'] r IH]; intros Hn Hi; [contradiction|]. cbn [assoc].
+  cbn [map fst] in Hn. inversion Hn as [|? ? Hnin Hn']; subst.
+  destruct Hi as [Hi|Hi].
+  - inversion Hi; subst. rewrite cref_eqb_refl. reflexivity.
+  - destruct (cref_eqb k k') eqn:E1.
+    + apply cref_eqb_eq in E1; subst. exfalso. apply Hnin. apply in_map_iff. exists (k', l). auto.
+    + apply IH; auto.
+Qed.
+Lemma assoc_Some_In (E : table) k l : assoc cref_eqb k E = Some l -> In (k, l) E.
+Proof.
+  induction E as [|[k' l'] r IH]; cbn [assoc]; [discriminate|].
+  destruct (cref_eqb k k') eqn:E1.
+  - apply cref_eqb_eq in E1; subst. intros H; inversion H; subst. left; reflexivity.
+  - intros H; right; auto.
+Qed.
+Lemma look_In E k l : NoDup (keys E) -> In (k, l) E -> look E k = l.
+Proof. intros Hn Hi. unfold look. rewrite (assoc_In _ _ _ Hn Hi). reflexivity. Qed.
+Lemma look_nokey E k : ~ In k (keys E) -> look E k = [].
+Proof.
+  intros H. unfold look. destruct (assoc cref_eqb k E) as [l|] eqn:A; [|reflexivity].
+  exfalso. apply H. apply assoc_Some_In in A. unfold keys. apply in_map_iff. exists (k, l). auto.
+Qed.
+
+Lemma outs_of_nokey E i : ~ In i (keys E) -> outs_of (pairs E) i = [].
+Proof.
+  unfold outs_of, pairs, keys. induction E as [|[k l] r IH]; intros Hn; [reflexivity|].
+  cbn [flat_map fst snd]. rewrite filter_app, map_app, IH.
+  - rewrite app_nil_r. cbn [map fst] in Hn.
+    assert (Hk : cref_eqb k i = false) by (apply cref_eqb_neq; intros ->; apply Hn; left; reflexivity).
+    clear -Hk. induction l as [|x t IHl]; [reflexivity|]. cbn [map filter fst]. rewrite Hk. exact IHl.
+  - intros H; apply Hn; right; exact H.
+Qed.
+
+Lemma outs_of_pairs E i : NoDup (keys E) -> outs_of (pairs E) i = look E i.
+Proof.
+  unfold keys. induction E as [|[k l] r IH]; intros Hn; [reflexivity|].
+  cbn [map fst] in Hn. inversion Hn as [|? ? Hnin Hn']; subst.
+  unfold outs_of, pairs in *. cbn [flat_map fst snd]. rewrite filter_app, map_app.
+  unfold look. cbn [assoc]. rewrite (cref_eqb_sym i k). destruct (cref_eqb k i) eqn:E1.
+  - apply cref_eqb_eq in E1; subst i.
+    fold (pairs r). fold (outs_of (pairs r) k). rewrite (outs_of_nokey r k Hnin), app_nil_r.
+    clear. induction l as [|x t IHl]; [reflexivity|]. cbn [map filter fst snd]. rewrite cref_eqb_refl.
+    cbn [map snd]. f_equal. exact IHl.
+  - rewrite IH; auto. unfold look.
+    assert (Hl : map snd (filter (fun p : cref * cref => cref_eqb (fst p) i) (map (pair k) l)) = []).
+    { clear -E1. induction l as [|x t IHl]; [reflexivity|]. cbn [map filter fst]. rewrite E1. exact IHl. }
+    rewrite Hl. reflexivity.
+Qed.
+
+Lemma ins_one k l o : NoDup l ->
+  map fst (filter (fun p : cref * cref => cref_eqb (snd p) o) (map (pair k) l)) =
+  if memb cref_eqb o l then [k] else [].
+Proof.
+  induction l as [|x t IH]; intros Hn; [reflexivity|]. inversion Hn as [|? ? Hnin Hn']; subst.
+  cbn [map filter snd memb]. rewrite (cref_eqb_sym o x). destruct (cref_eqb x o) eqn:E1.
+  - apply cref_eqb_eq in E1; subst x. cbn [orb map fst]. rewrite IH; auto.
+    apply memb_nIn_c in Hnin. rewrite Hnin. reflexivity.
+  - cbn [orb]. apply IH; auto.
+Qed.
+
+Lemma ins_of_pairs E o : (forall e, In e E -> NoDup (snd e)) -> ins_of (pairs E) o = canon E o.
+Proof.
+  unfold ins_of, pairs, canon. induction E as [|[k l] r IH]; intros Hn; [reflexivity|].
+  cbn [flat_map fst snd filter]. rewrite filter_app, map_app, IH.
+  - rewrite ins_one; [|exact (Hn (k, l) (or_introl eq_refl))].
+    destruct (memb cref_eqb o l); reflexivity.
+  - intros e He; apply Hn; right; exact He.
+Qed.
+
+Lemma table_ok_spec E : table_ok E = true <-> NoDup (keys E) /\ forall e, In e E -> NoDup (snd e).
+Proof.
+  unfold table_ok. rewrite andb_true_iff, nodupb_c, forallb_forall.
+  split; intros [A B]; split; auto; intros e He; apply nodupb_c; auto.
+Qed.
+
+Lemma nodup_pairs E : NoDup (keys E) -> (forall e, In e E -> NoDup (snd e)) -> NoDup (pairs E).
+Proof.
+  unfold keys, pairs. induction E as [|[k l] r IH]; intros Hk Hl; [constructor|].
+  cbn [map fst] in Hk. inversion Hk as [|? ? Hnin Hk']; subst. cbn [flat_map fst snd].
+  apply nodup_app.
+  - pose proof (Hl (k, l) (or_introl eq_refl)) as Hn. cbn in Hn. clear -Hn.
+    induction Hn as [|x t Hx Hn IHn]; [constructor|]. cbn [map]. constructor; [|exact IHn].
+    rewrite in_map_iff. intros [y [Hy Hin]]. inversion Hy; subst. contradiction.
+  - apply IH; auto. intros e He; apply Hl; right; exact He.
+  - intros p Hp Hq. apply in_map_iff in Hp. destruct Hp as [o [<- _]].
+    fold (pairs r) in Hq. apply in_pairs in Hq. destruct Hq as [l' [He _]]. cbn [fst] in He.
+    apply Hnin. apply in_map_iff. exists (k, l'). auto.
+Qed.
+
+Lemma in_canon E o i : In i (canon E o) <-> exists l, In (i, l) E /\ In o l.
+Proof.
+  unfold canon. rewrite in_map_iff. split.
+  - intros [[k l] [<- H]]. apply filter_In in H. destruct H as [He Hm]. cbn [snd] in Hm.
+    apply memb_In_c in Hm. exists l. auto.
+  - intros [l [He Ho]]. exists (i, l). split; [reflexivity|]. apply filter_In. split; [exact He|].
+    cbn [snd]. apply memb_In_c. exact Ho.
+Qed.
+Lemma nodup_canon E o : NoDup (keys E) -> NoDup (canon E o).
+Proof.
+  unfold keys, canon. induction E as [|[k l] r IH]; intros Hk; [constructor|].
+  cbn [map fst] in Hk. inversion Hk as [|? ? Hnin Hk']; subst. cbn [filter snd].
+  destruct (memb cref_eqb o l); [|auto]. cbn [map fst]. constructor; [|auto].
+  intros H. apply Hnin. apply in_map_iff in H. destruct H as [e [<- He]]. apply filter_In in He.
+  apply in_map_iff. exists e. tauto.
+Qed.
+
+Lemma sym_half_spec E F :
+  sym_half E F = true <->
+  forall i l o, In (i, l) E -> In o l -> exists l', assoc cref_eqb o F = Some l' /\ In i l'.
+Proof.
+  unfold sym_half. rewrite forallb_forall. split.
+  - intros H i l o He Ho. specialize (H (i, l) He). cbn [fst snd] in H. rewrite forallb_forall in H.
+    specialize (H o Ho). destruct (assoc cref_eqb o F) as [l'|]; [|discriminate].
+    exists l'. split; [reflexivity|]. apply memb_In_c. exact H.
+  - intros H [i l] He. cbn [fst snd]. rewrite forallb_forall. intros o Ho.
+    destruct (H i l o He Ho) as [l' [A B]]. rewrite A. apply memb_In_c. exact B.
+Qed.
